@@ -13,23 +13,27 @@
 (* are explored once per distinct flushed state; the replayer runs every history of a network against every       *)
 (* suffix of the same network on the real code.                                                                    *)
 EXTENDS Solvers, Json, SequencesExt
-CONSTANTS Inputs, Biases, Hidden, OutSet,
+CONSTANTS Inputs, Biases, Hidden, OutSet, Shapes,
           Weights, TdFlags, InVals, OrderKinds, ActSchemes, LinkCaps, SealAtCap, Canonical,
           FwdKs, RelaxKs, UseRec, UseAct, MaxHist, MaxSuf, Limit, FlushWorks
 
-Sensors == Inputs \cup Biases
-Neurons == Hidden \cup OutSet
-Asc(S) == SetToSortSeq(S, <)
-Outputs == Asc(OutSet)
-VARIABLES inc, cap, ph, net, fm, A, T, ops, log, tlog
-vars == <<inc, cap, ph, net, fm, A, T, ops, log, tlog>>
+VARIABLES shape, inc, cap, ph, net, fm, A, T, ops, log, tlog
+vars == <<shape, inc, cap, ph, net, fm, A, T, ops, log, tlog>>
+\* the nodes of the network under construction are those of `shape`, one of the node sets in Shapes
+Ins == Inputs \cap shape
+Bis == Biases \cap shape
+Hid == Hidden \cap shape
+Sensors == Ins \cup Bis
+Neurons == Hid \cup (OutSet \cap shape)
+Asc(X) == SetToSortSeq(X, <)
+Outputs == Asc(OutSet \cap shape)
 
 OrderOf(kind) ==
-    CASE kind = "IBHO" -> Asc(Inputs) \o Asc(Biases) \o Asc(Hidden) \o Outputs
-      [] kind = "IBOH" -> Asc(Inputs) \o Asc(Biases) \o Outputs \o Asc(Hidden)
-      [] kind = "BIHO" -> Asc(Biases) \o Asc(Inputs) \o Asc(Hidden) \o Outputs
-      [] kind = "BIOH" -> Asc(Biases) \o Asc(Inputs) \o Outputs \o Asc(Hidden)
-      [] kind = "IBOHr" -> Asc(Inputs) \o Asc(Biases) \o Outputs \o Reverse(Asc(Hidden))
+    CASE kind = "IBHO" -> Asc(Ins) \o Asc(Bis) \o Asc(Hid) \o Outputs
+      [] kind = "IBOH" -> Asc(Ins) \o Asc(Bis) \o Outputs \o Asc(Hid)
+      [] kind = "BIHO" -> Asc(Bis) \o Asc(Ins) \o Asc(Hid) \o Outputs
+      [] kind = "BIOH" -> Asc(Bis) \o Asc(Ins) \o Outputs \o Asc(Hid)
+      [] kind = "IBOHr" -> Asc(Ins) \o Asc(Bis) \o Outputs \o Reverse(Asc(Hid))
 KindOf(n) == IF n \in Inputs THEN "I" ELSE IF n \in Biases THEN "B" ELSE IF n \in Hidden THEN "H" ELSE "O"
 ActsOf(scheme) ==
     LET ns == Asc(Neurons) IN
@@ -42,11 +46,16 @@ NetOf(order, acts) ==
      inc |-> [n \in Sensors \cup Neurons |-> IF n \in Neurons THEN inc[n] ELSE <<>>]]
 LinkSet == UNION { { <<inc[n][i].src, n>> : i \in DOMAIN inc[n] } : n \in Neurons }
 NumLinks == Cardinality(LinkSet)
-InputVectors == [1..Cardinality(Inputs) -> InVals]
+\* input vectors are drawn with the length of the largest shape (a constant set, so that TLC's simulator can pick one
+\* action instance at a time); a smaller shape uses the prefix, the rest being pinned to one value
+FullVectors == [1..Cardinality(Inputs) -> InVals]
+Padded(v) == \A i \in DOMAIN v : i > Cardinality(Ins) => v[i] = (CHOOSE x \in InVals : TRUE)
+Trunc(v) == [i \in 1..Cardinality(Ins) |-> v[i]]
+AllNodes == Inputs \cup Biases \cup Hidden \cup OutSet
 BoundedActs == \A n \in Neurons : net.act[n] \in {"clip", "null", "sign", "step"}
 
 Op(o, k, v) == [op |-> o, k |-> k, v |-> v]
-OpSet == { Op("load", 0, v) : v \in InputVectors } \cup { Op("fwd", k, <<>>) : k \in FwdKs }
+OpSet == { Op("load", 0, v) : v \in FullVectors } \cup { Op("fwd", k, <<>>) : k \in FwdKs }
          \cup { Op("relax", k, <<>>) : k \in RelaxKs }
          \cup (IF UseRec THEN {Op("rec", 0, <<>>)} ELSE {}) \cup (IF UseAct THEN {Op("act", 0, <<>>)} ELSE {})
 
@@ -70,31 +79,35 @@ Apply(o, X) ==
            LET r == StdActivate(net, X.std)  f == FastRelax(fm, X.fast, 2, FALSE)
            IN  [X |-> [std |-> r.st, fast |-> f], obs |-> Obs(net, fm, r.st, r.err, f)]
 
-Init == /\ inc = [n \in Neurons |-> <<>>] /\ ph = "build" /\ cap \in LinkCaps
+Init == /\ shape \in Shapes /\ inc = [n \in Neurons |-> <<>>] /\ ph = "build" /\ cap \in LinkCaps
         /\ net = <<>> /\ fm = <<>> /\ A = <<>> /\ T = <<>> /\ ops = <<>> /\ log = <<>> /\ tlog = <<>>
 
 \* any simple digraph: self-loops and cycles are welcome
+Addable(u, v) == \A i \in DOMAIN inc[v] : inc[v][i].src # u
+CanAdd == NumLinks < cap /\ \E u \in Sensors \cup Neurons, v \in Neurons : Addable(u, v)
 AddLink(u, v, w, td) ==
-    /\ ph = "build" /\ NumLinks < cap
-    /\ \A i \in DOMAIN inc[v] : inc[v][i].src # u
+    /\ ph = "build" /\ u \in shape /\ v \in shape /\ NumLinks < cap /\ Addable(u, v)
     /\ Canonical => \A e \in LinkSet : e[2] < v \/ (e[2] = v /\ e[1] < u)
     /\ inc' = [inc EXCEPT ![v] = Append(@, [src |-> u, w |-> w, td |-> td])]
-    /\ UNCHANGED <<cap, ph, net, fm, A, T, ops, log, tlog>>
+    /\ UNCHANGED <<shape, cap, ph, net, fm, A, T, ops, log, tlog>>
+SealGuard == ph = "build" /\ NumLinks >= 1 /\ (SealAtCap => ~CanAdd)
 Seal(ok, scheme) ==
-    /\ ph = "build" /\ NumLinks >= 1 /\ (SealAtCap => NumLinks = cap)
+    /\ SealGuard
     /\ LET nt == NetOf(OrderOf(ok), ActsOf(scheme))  m == FastModel(nt)
        IN  /\ net' = nt /\ fm' = m
            /\ A' = [std |-> StdFresh(nt), fast |-> FastFresh(m)]
     /\ ph' = "hist"
-    /\ UNCHANGED <<inc, cap, T, ops, log, tlog>>
+    /\ UNCHANGED <<shape, inc, cap, T, ops, log, tlog>>
 Small(X) == StdSmall(X.std, Limit) /\ FastSmall(X.fast, Limit)
-Do(o) ==
-    /\ ph = "hist" /\ Len(ops) < MaxHist
-    /\ o.op = "act" => BoundedActs
-    /\ LET r == Apply(o, A) IN
+\* a drawn call: load vectors are cut to the shape's number of inputs
+Usable(ofull) == (ofull.op = "load" => Padded(ofull.v)) /\ (ofull.op = "act" => BoundedActs)
+Cut(ofull) == IF ofull.op = "load" THEN Op("load", 0, Trunc(ofull.v)) ELSE ofull
+Do(ofull) ==
+    /\ ph = "hist" /\ Len(ops) < MaxHist /\ Usable(ofull)
+    /\ LET o == Cut(ofull)  r == Apply(o, A) IN
          /\ Small(r.X)
          /\ A' = r.X /\ ops' = Append(ops, o) /\ log' = Append(log, r.obs)
-    /\ UNCHANGED <<inc, cap, ph, net, fm, T, tlog>>
+    /\ UNCHANGED <<shape, inc, cap, ph, net, fm, T, tlog>>
 \* Network.Flush and the fast solver's Flush; the twin is born here
 HistCase == [kind |-> "hist", net |-> NetJson(net), ops |-> ops, log |-> log]
 Flush ==
@@ -104,20 +117,20 @@ Flush ==
     /\ T' = [std |-> StdFresh(net), fast |-> FastFresh(fm)]
     /\ ops' = <<>> /\ log' = <<>> /\ tlog' = <<>>
     /\ ph' = "suffix"
-    /\ UNCHANGED <<inc, cap, net, fm>>
-DoS(o) ==
-    /\ ph = "suffix" /\ Len(ops) < MaxSuf
-    /\ o.op = "act" => BoundedActs
-    /\ LET r == Apply(o, A)  t == Apply(o, T) IN
+    /\ UNCHANGED <<shape, inc, cap, net, fm>>
+DoS(ofull) ==
+    /\ ph = "suffix" /\ Len(ops) < MaxSuf /\ Usable(ofull)
+    /\ LET o == Cut(ofull)  r == Apply(o, A)  t == Apply(o, T) IN
          /\ Small(r.X) /\ Small(t.X)
          /\ A' = r.X /\ T' = t.X /\ ops' = Append(ops, o)
          /\ log' = Append(log, r.obs) /\ tlog' = Append(tlog, t.obs)
-    /\ UNCHANGED <<inc, cap, ph, net, fm>>
+    /\ UNCHANGED <<shape, inc, cap, ph, net, fm>>
 SufCase == [kind |-> "suffix", net |-> NetJson(net), ops |-> ops, log |-> tlog]
 EmitS == /\ ph = "suffix" /\ Len(ops) = MaxSuf /\ PrintT(ToJson(SufCase))
-         /\ ph' = "done" /\ UNCHANGED <<inc, cap, net, fm, A, T, ops, log, tlog>>
+         /\ ph' = "done" /\ UNCHANGED <<shape, inc, cap, net, fm, A, T, ops, log, tlog>>
 
-Next == \/ \E u \in Sensors \cup Neurons, v \in Neurons, w \in Weights, td \in TdFlags : AddLink(u, v, w, td)
+\* (the bound sets are constant so that the simulator draws one action instance at a time)
+Next == \/ \E u \in AllNodes, v \in Hidden \cup OutSet, w \in Weights, td \in TdFlags : AddLink(u, v, w, td)
         \/ \E ok \in OrderKinds, sc \in ActSchemes : Seal(ok, sc)
         \/ \E o \in OpSet : Do(o) \/ DoS(o)
         \/ Flush \/ EmitS
